@@ -27,7 +27,7 @@ RULE = (
     'permutation of the atoms, random permutation of the sites.  Compared outputs: states, inner states, events, '
     'jumps, jump matrix, jump diffusivity, occupancies, collective pair / solo counts, per-state and species-pair '
     'RDFs, tracer diffusivity, vibration amplitude, density volume, free-energy grid, optimal-path cost.  '
-    'Non-trivial = the system has at least 2 jumps and the translation moves at least one atom-frame through a '
+    'Every second system is also analysed with the automatically chosen site radius (site_radius omitted): the radius and the states must be invariant.  Non-trivial = the system has at least 2 jumps and the translation moves at least one atom-frame through a '
     'cell face; distinct = SHA-1 of the original representation.'
 )
 ASSUMPTIONS = [
